@@ -115,6 +115,11 @@ func c11Gen(r *vRand, idx int) *c11Grammar {
 	g := &c11Grammar{idx: idx, classRule: -1, kw: map[string]string{}}
 	g.m = lgMode{fold: idx%5 == 3, bytes: idx%2 == 1}
 	g.universe = lgAlphabet(g.m)
+	if !g.m.bytes {
+		// the runes right after sigma and Sigma: a generated mapRune that takes the exclusive end of a
+		// compressed range for a member (seeded change C11-r8m1) classifies them as sigma / Sigma
+		g.universe = append(g.universe, 0x3c4, 0x3a4)
+	}
 	g.nsc = 1
 	if idx%3 == 0 {
 		g.nsc = 2
